@@ -36,12 +36,16 @@ DEFUZZ = ["Bisector", "Centroid", "LargestOfMaximum", "MeanOfMaximum", "Smallest
 def mk_set(case, row=None, shift=0.0):
     lo, hi = case["min"] + shift, case["max"] + shift
     acts = []
+    shared = {}  # activations of an identical term share one Term object (as two rule blocks writing one term do)
     for a in case["acts"]:
         d = a["degree"]
         if isinstance(d, list):
             d = np.array(d, dtype=float) if row is None else float(d[row])
         term = refmath.translate(a["term"], shift) if shift else a["term"]
-        acts.append(fl.Activated(build.mk_term(term), d, build.mk_norm(a["implication"], "t")))
+        key = repr(sorted(term.items(), key=lambda kv: kv[0]))
+        if key not in shared:
+            shared[key] = build.mk_term(term)
+        acts.append(fl.Activated(shared[key], d, build.mk_norm(a["implication"], "t")))
     # the range integrated over is the one passed to defuzzify(); the Aggregated object's own minimum / maximum
     # attributes (NaN by default) do not restrict its membership function
     own = case.get("own_bounds")
@@ -210,6 +214,15 @@ def cases(draw):
             twin = refmath.translate(a0["term"], draw(st.sampled_from([0.0004, 0.0002, -0.0003])))
             acts.append({"term": twin, "degree": draw(st.lists(deg, min_size=m, max_size=m)) if batch else draw(deg),
                          "implication": a0["implication"]})
+    if acts and draw(st.integers(0, 4)) == 0:
+        # the same term activated again (same Term object) with another implication operator and degree
+        a0 = draw(st.sampled_from(acts))
+        acts.append({"term": a0["term"], "degree": draw(st.lists(deg, min_size=m, max_size=m)) if batch else draw(deg),
+                     "implication": draw(st.sampled_from(refmath.TNORMS))})
+    if draw(st.integers(0, 7)) == 0:
+        # a first activation that is exactly 1 at every sample point (a rectangle wider than the range at degree 1)
+        full = {"cls": "Rectangle", "p": [lo - 1.0, hi + 1.0], "h": 1.0, "name": "full", "rg": "free"}
+        acts.insert(0, {"term": full, "degree": [1.0] * m if batch else 1.0, "implication": "Minimum"})
     case = {"min": lo, "max": hi, "resolution": r, "aggregation": draw(st.sampled_from(refmath.SNORMS)), "acts": acts}
     case["own_bounds"] = draw(st.sampled_from([None, None, None, "nan", "narrow", "wide"]))
     if draw(st.integers(0, 3)) == 0:
